@@ -287,3 +287,39 @@ example : Pyx.OSetPtr.absRunP [.add 9, .add 8, .add 7, .iterRm [9, 7], .add 5] =
     Pyx.OSetPtr.ptrMem 9 (Pyx.OSetPtr.runP [.add 9, .add 8, .add 7, .iterRm [9, 7], .add 5]) = false := by decide
 
 end PyxProps.C17
+
+/-! ==========================================================================================================
+  REVERSE iteration with removal of the visited element (round-4 seed C17-g)  — appended section
+  ========================================================================================================== -/
+namespace PyxProps.C17
+open Pyx.OSet
+
+/-- "removing the element currently being visited" for `reversed(s)`: the pointer-level generator `__reversed__`
+    (`curr = end[1]; while curr is not end: yield curr[0]; curr = curr[1]`, the step read after the consumer ran), whose
+    consumer discards the visited element whenever `p` holds, visits exactly the elements of the set once each in REVERSE
+    order, and the store it leaves again satisfies `Repr`, denoting the list without the removed elements -/
+theorem reverse_iter_remove_keeps_repr (p : Nat → Bool) (s : Pyx.OSetPtr.Store) (L : List Nat) (h : Pyx.OSetPtr.Repr s L) :
+    (Pyx.OSetPtr.reversedRem p s.fresh s (s.prev 0)).1 = L.reverse ∧
+    Pyx.OSetPtr.Repr (Pyx.OSetPtr.reversedRem p s.fresh s (s.prev 0)).2 (L.filter (fun k => !p k)) := by
+  obtain ⟨as, ha⟩ := h
+  exact Pyx.OSetPtr.reprA_reversedRem p ha
+
+/-- … hence in EVERY state reachable by add / discard / iterate-with-removal (forward or backward) sequences; and the
+    backward walk is, statement by statement, the generic walk of the `__reversed__` shape read from the source with the
+    `discard` program read from the source -/
+theorem reverse_iter_remove_current_reachable (p : Nat → Bool) (ops : List Pyx.OSetPtr.POp) (f curr : Nat)
+    (s : Pyx.OSetPtr.Store) :
+    (Pyx.OSetPtr.reversedRem p (Pyx.OSetPtr.runP ops).fresh (Pyx.OSetPtr.runP ops)
+      ((Pyx.OSetPtr.runP ops).prev 0)).1 = (Pyx.OSetPtr.absRunP ops).reverse ∧
+    Pyx.OSetPtr.reversedRem p f s curr = Pyx.OShape.iIterRem Pyx.Gen.OSetShape.reversedShape Pyx.Gen.OSetShape.discardProg p f s curr :=
+  ⟨(reverse_iter_remove_keeps_repr p _ _ (ptr_reachable ops).1).1, Pyx.OShape.reversedRem_eq p f s curr⟩
+
+/-- applied: the ring 9, 8, 7 walked backwards while 7 and 9 are discarded visits 7, 8, 9 and leaves [8]; sequences mixing
+    both directions stay represented -/
+example : (Pyx.OSetPtr.reversedRem (fun k => k == 7 || k == 9) 4 (Pyx.OSetPtr.runP [.add 9, .add 8, .add 7])
+      ((Pyx.OSetPtr.runP [.add 9, .add 8, .add 7]).prev 0)).1 = [7, 8, 9] ∧
+    Pyx.OSetPtr.toList (Pyx.OSetPtr.runP [.add 9, .add 8, .add 7, .riterRm [7, 9], .add 5]) = [8, 5] ∧
+    Pyx.OSetPtr.toListRev (Pyx.OSetPtr.runP [.add 9, .add 8, .add 7, .riterRm [7, 9], .add 5, .iterRm [8]]) = [5] ∧
+    Pyx.OSetPtr.absRunP [.add 9, .add 8, .add 7, .riterRm [7, 9], .add 5, .iterRm [8]] = [5] := by decide
+
+end PyxProps.C17
